@@ -6,6 +6,7 @@ import (
 	"go/token"
 	"go/types"
 	"regexp"
+	"sort"
 	"strings"
 	"unicode"
 
@@ -160,6 +161,7 @@ func checkC07(c *Ctx) {
 	c07Delims(c)
 	c07LexSuperset(c, accepted)
 	c07EscapeRange(c)
+	c07QuoteOpen(c)
 	c07Plumbing(c)
 	c07Numbers(c)
 	c07Keywords(c)
@@ -223,7 +225,7 @@ func c07LexSuperset(c *Ctx, accepted map[byte]map[int]bool) {
 		if f != nil {
 			r.Fn(relName(f))
 			allInstrs(f, func(in ssa.Instruction) {
-				if call, isC := in.(*ssa.Call); isC && call.Call.StaticCallee() != nil && call.Call.StaticCallee().Name() == "addParseErrf" {
+				if call, isC := in.(*ssa.Call); isC && call.Call.StaticCallee() != nil && reportsParseErr(call.Call.StaticCallee(), 0) {
 					for _, ec := range controlling(call.Block()) {
 						if strings.Contains(ec.String(), "!= nil") && !strings.HasPrefix(ec.String(), "!(") {
 							ok = true
@@ -329,6 +331,7 @@ func c07Numbers(c *Ctx) {
 	}
 	r.Fn(relName(f))
 	var pi, pf *ssa.Call
+	var pfVia *ssa.Call // f's call to the helper that holds the float path, if it was moved out
 	allInstrs(f, func(in ssa.Instruction) {
 		if call, ok := in.(*ssa.Call); ok && call.Call.StaticCallee() != nil {
 			switch call.Call.StaticCallee().Name() {
@@ -339,6 +342,19 @@ func c07Numbers(c *Ctx) {
 			}
 		}
 	})
+	if pf == nil {
+		allInstrs(f, func(in ssa.Instruction) {
+			via, ok := in.(*ssa.Call)
+			if !ok || via.Call.StaticCallee() == nil || via.Call.StaticCallee().Pkg != f.Pkg || len(via.Call.StaticCallee().Blocks) == 0 {
+				return
+			}
+			allInstrs(via.Call.StaticCallee(), func(i2 ssa.Instruction) {
+				if c2, ok := i2.(*ssa.Call); ok && c2.Call.StaticCallee() != nil && c2.Call.StaticCallee().Name() == "ParseFloat" {
+					pf, pfVia = c2, via
+				}
+			})
+		})
+	}
 	okInt := pi != nil && strings.HasSuffix(path(pi.Call.Args[0]), ".Val")
 	if okInt {
 		b, _ := constInt(pi.Call.Args[1])
@@ -352,7 +368,11 @@ func c07Numbers(c *Ctx) {
 		okFloat = bits == 64
 		// only on ParseInt's failure
 		g := false
-		for _, ec := range controlling(pf.Block()) {
+		ecs := controlling(pf.Block())
+		if pfVia != nil {
+			ecs = controlling(pfVia.Block())
+		}
+		for _, ec := range ecs {
 			if bo, ok := ec.Cond.(*ssa.BinOp); ok && isNilConst(bo.Y) {
 				if ex, ok := bo.X.(*ssa.Extract); ok && ex.Tuple == ssa.Value(pi) && ex.Index == 1 && ec.Pol == (bo.Op.String() == "!=") {
 					g = true
@@ -365,7 +385,11 @@ func c07Numbers(c *Ctx) {
 	// integer result is ParseInt's value, float result ParseFloat's
 	sum := summarizeCtor(f)
 	r.Ob("NUMBERS", "integer literal carries ParseInt's value", t.Pos(f.Pos()), setStr(sum.Fields["IntegerLiteral.Val"]) == "call:ParseInt", "IntegerLiteral.Val <- "+setStr(sum.Fields["IntegerLiteral.Val"]))
-	r.Ob("NUMBERS", "float literal carries ParseFloat's value", t.Pos(f.Pos()), setStr(sum.Fields["FloatLiteral.Val"]) == "call:ParseFloat", "FloatLiteral.Val <- "+setStr(sum.Fields["FloatLiteral.Val"]))
+	fsum := sum
+	if pfVia != nil {
+		fsum = summarizeCtor(pfVia.Call.StaticCallee())
+	}
+	r.Ob("NUMBERS", "float literal carries ParseFloat's value", t.Pos(f.Pos()), setStr(fsum.Fields["FloatLiteral.Val"]) == "call:ParseFloat", "FloatLiteral.Val <- "+setStr(fsum.Fields["FloatLiteral.Val"]))
 }
 
 func c07Keywords(c *Ctx) {
@@ -591,50 +615,60 @@ func c07EscapeRange(c *Ctx) {
 		return false, b.Name()
 	}
 	n := 0
+	escFns := []*ssa.Function{le}
 	allInstrs(le, func(in ssa.Instruction) {
-		ph, ok := in.(*ssa.Phi)
-		if !ok {
-			return
+		if call, ok := in.(*ssa.Call); ok {
+			if h := call.Call.StaticCallee(); h != nil && h.Pkg == le.Pkg && len(h.Blocks) > 0 && h != le && h.Name() != "next" && h.Name() != "errorf" && h.Name() != "backup" {
+				escFns = append(escFns, h)
+			}
 		}
-		if b, isB := ph.Type().Underlying().(*types.Basic); !isB || b.Info()&types.IsInteger == 0 {
-			return
-		}
-		// an edge that is (ph * k | ph << k) (+ | '|') d
-		acc := false
-		var dep func(v ssa.Value, depth int, scaled bool) bool
-		dep = func(v ssa.Value, depth int, scaled bool) bool {
-			if depth > 4 {
+	})
+	for _, le := range escFns {
+		allInstrs(le, func(in ssa.Instruction) {
+			ph, ok := in.(*ssa.Phi)
+			if !ok {
+				return
+			}
+			if b, isB := ph.Type().Underlying().(*types.Basic); !isB || b.Info()&types.IsInteger == 0 {
+				return
+			}
+			// an edge that is (ph * k | ph << k) (+ | '|') d
+			acc := false
+			var dep func(v ssa.Value, depth int, scaled bool) bool
+			dep = func(v ssa.Value, depth int, scaled bool) bool {
+				if depth > 4 {
+					return false
+				}
+				if v == ssa.Value(ph) {
+					return scaled
+				}
+				if bo, isB := v.(*ssa.BinOp); isB {
+					switch bo.Op {
+					case token.MUL, token.SHL:
+						return dep(bo.X, depth+1, true) || (bo.Op == token.MUL && dep(bo.Y, depth+1, true))
+					case token.ADD, token.OR:
+						return dep(bo.X, depth+1, scaled) || dep(bo.Y, depth+1, scaled)
+					}
+				}
+				if cv, isC := v.(*ssa.Convert); isC {
+					return dep(cv.X, depth+1, scaled)
+				}
 				return false
 			}
-			if v == ssa.Value(ph) {
-				return scaled
-			}
-			if bo, isB := v.(*ssa.BinOp); isB {
-				switch bo.Op {
-				case token.MUL, token.SHL:
-					return dep(bo.X, depth+1, true) || (bo.Op == token.MUL && dep(bo.Y, depth+1, true))
-				case token.ADD, token.OR:
-					return dep(bo.X, depth+1, scaled) || dep(bo.Y, depth+1, scaled)
+			for _, e := range ph.Edges {
+				if dep(e, 0, false) {
+					acc = true
 				}
 			}
-			if cv, isC := v.(*ssa.Convert); isC {
-				return dep(cv.X, depth+1, scaled)
+			if !acc {
+				return
 			}
-			return false
-		}
-		for _, e := range ph.Edges {
-			if dep(e, 0, false) {
-				acc = true
-			}
-		}
-		if !acc {
-			return
-		}
-		n++
-		ok2, name := holds(ph.Type())
-		r.Ob("ESCAPE-RANGE", fmt.Sprintf("lexEscape digit accumulator #%d cannot wrap below 16^8", n), t.Pos(phiPos(ph, le)), ok2,
-			fmt.Sprintf("accumulator type %s; \\UHHHHHHHH accumulates up to 4294967295 before the `> max` test — a narrower or signed 32-bit type wraps and lets out-of-range escapes through", name))
-	})
+			n++
+			ok2, name := holds(ph.Type())
+			r.Ob("ESCAPE-RANGE", fmt.Sprintf("lexEscape digit accumulator #%d cannot wrap below 16^8", n), t.Pos(phiPos(ph, le)), ok2,
+				fmt.Sprintf("accumulator type %s; \\UHHHHHHHH accumulates up to 4294967295 before the `> max` test — a narrower or signed 32-bit type wraps and lets out-of-range escapes through", name))
+		})
+	}
 	r.Floor("ESCAPE-RANGE", 1)
 }
 
@@ -648,4 +682,126 @@ func phiPos(ph *ssa.Phi, f *ssa.Function) token.Pos {
 		}
 	}
 	return f.Pos()
+}
+
+// c07QuoteOpen: what follows an opening quote. lexStatements specialised for the first rune q ∈ {", '} (hooks:
+// next → q, then symbolic runes; peek → symbolic; emit → effect) may leave for lexString (an ordinary string opened by
+// q), emit an empty string, or leave for lexMultilineString. Which of the three happens must depend on the following
+// runes only through "is it q again": a test of a following rune against anything else (the other quote, a set of
+// quote characters) makes `"'…"` an empty or a multi-line string and so rejects or mis-reads a valid literal.
+func c07QuoteOpen(c *Ctx) {
+	r, t := c.R, c.T
+	ls := t.Func(pParser, "lexStatements")
+	next := t.Method(pParser, "Lexer", "next")
+	peek := t.Method(pParser, "Lexer", "peek")
+	emit := t.Method(pParser, "Lexer", "emit")
+	if ls == nil || next == nil || peek == nil || emit == nil {
+		r.Undecided("QUOTE-OPEN", "parser.lexStatements", "", "unresolved anchor")
+		return
+	}
+	r.Fn(relName(ls))
+	reRune := regexp.MustCompile(`\b(peek|rune)#\d+(@\w+)?`)
+	for _, q := range []byte{'"', '\''} {
+		cfg := &specCfg{MaxLoop: 2, MaxVisits: 200000, MaxDepth: 3}
+		nSym := 0
+		cfg.Call = func(fn *ssa.Function, call *ssa.Call, nth int, args []sval) (sval, bool) {
+			cal := call.Call.StaticCallee()
+			if cal == nil {
+				return sval{}, false
+			}
+			switch {
+			case cal == next && fn == ls && nth == 1:
+				return constv(constant.MakeInt64(int64(q))), true
+			case cal == next:
+				nSym++
+				return symv(fmt.Sprintf("rune#%d", nSym)), true
+			case cal == peek:
+				nSym++
+				return symv(fmt.Sprintf("peek#%d", nSym)), true
+			case cal == emit:
+				return symv("effect:emit " + args[len(args)-1].String()), true
+			case cal.Name() == "backup" || cal.Name() == "ignore" || cal.Name() == "Debugf":
+				return symv(cal.Name()), true
+			case cal.Pkg != nil && cal.Pkg.Pkg.Path() == "strings" && cal.Name() == "HasPrefix":
+				return constv(constant.MakeBool(false)), true
+			case cal.Pkg != nil && (cal.Pkg.Pkg.Path() == "strings" || cal.Pkg.Pkg.Path() == "unicode"):
+				var as []string
+				for _, a := range args {
+					as = append(as, a.String())
+				}
+				return symv(cal.Name() + "(" + strings.Join(as, ", ") + ")"), true
+			}
+			return sval{}, false
+		}
+		outs, ab := cfg.run(ls, []sval{symv("l")})
+		key := fmt.Sprintf("what follows an opening %c decides between string, empty string and multi-line string only by being %c again", q, q)
+		if ab != "" || len(outs) == 0 {
+			r.Undecided("QUOTE-OPEN", key, t.Pos(ls.Pos()), "lexStatements could not be specialised for this first rune: "+ab)
+			continue
+		}
+		want := fmt.Sprintf("== %d", q)
+		bad := ""
+		kinds := map[string]bool{}
+		for _, o := range outs {
+			ret := ""
+			if len(o.Vals) == 1 {
+				ret = o.Vals[0].String()
+			}
+			kinds[ret] = true
+			for _, cd := range o.Cond {
+				if strings.HasPrefix(cd, "effect:") || !reRune.MatchString(cd) {
+					continue
+				}
+				lit := canonLit(cd)
+				atom := strings.TrimLeft(lit, "+-")
+				m := reRune.FindString(atom)
+				if atom != m+" "+want && atom != fmt.Sprintf("%d == %s", q, m) {
+					bad = cd
+				}
+			}
+		}
+		var ks []string
+		for k := range kinds {
+			ks = append(ks, k)
+		}
+		sort.Strings(ks)
+		detail := fmt.Sprintf("%d outcomes (next states: %s)", len(outs), strings.Join(ks, ", "))
+		if bad != "" {
+			detail += "; a following rune is tested by `" + bad + "`, which is not a comparison with the opening quote"
+		}
+		r.Ob("QUOTE-OPEN", key, t.Pos(ls.Pos()), bad == "" && kinds["lexString"] && kinds["lexMultilineString"], detail)
+	}
+	r.Floor("QUOTE-OPEN", 2)
+}
+
+// reportsParseErr: f is addParseErrf / addParseErr, or a helper every path of which calls one (two levels).
+func reportsParseErr(f *ssa.Function, depth int) bool {
+	if f.Name() == "addParseErrf" || f.Name() == "addParseErr" {
+		return true
+	}
+	if depth >= 2 || len(f.Blocks) == 0 || !inModule(f) {
+		return false
+	}
+	var sites []*ssa.BasicBlock
+	allInstrs(f, func(in ssa.Instruction) {
+		if call, ok := in.(*ssa.Call); ok && call.Call.StaticCallee() != nil && reportsParseErr(call.Call.StaticCallee(), depth+1) {
+			sites = append(sites, call.Block())
+		}
+	})
+	// on every path: some site dominates every return
+	for _, b := range f.Blocks {
+		if _, isRet := b.Instrs[len(b.Instrs)-1].(*ssa.Return); !isRet {
+			continue
+		}
+		ok := false
+		for _, s := range sites {
+			if s.Dominates(b) {
+				ok = true
+			}
+		}
+		if !ok {
+			return false
+		}
+	}
+	return len(sites) > 0
 }
